@@ -190,6 +190,10 @@ def observe_case(args):
             "flags": [list(p["flags"].get(q + 1, (None, None, None))) for q in range(len(st["rain"]))],
             "depth_exact": all(abs(d - round(d)) < 1e-9 for _, d in p["depth"]),
         })
+    missing = [(k + 1, q + 1) for k, o in enumerate(obs) for q, f in enumerate(o["flags"]) if None in f]
+    if missing:
+        # a sample without a flag row cannot be encoded for TLC (JSON null); it is a difference by itself
+        return cid, None, "NOFLAGS: no flag row for (stretch, sample) %s" % missing[:6]
     return cid, {"id": cid, "rec": rec, "S": pres.S, "J": pres.J, "obs": obs}, None
 
 
@@ -228,7 +232,11 @@ def code_to_spec(chk, n_cases, pres_list, mode="api", procs=12, prefixes=("C01",
             chk.count("evaluations")
             job = jobs[cid]
             if err:
-                if chk.prop == "C01":
+                if err.startswith("NOFLAGS") and chk.prop == "C04":
+                    chk.violation("flags are not defined for every sample of record %s: %s" % (json.dumps(job[1]), err),
+                                  {"kind": "classify_total", "rec": job[1], "pres": job[2], "mode": job[3],
+                                   "detail": err})
+                elif chk.prop == "C01":
                     chk.violation("classification failed on random record: %s" % err,
                                   {"kind": "classify_total", "rec": job[1], "pres": job[2], "mode": job[3],
                                    "detail": err})
@@ -257,7 +265,7 @@ def code_to_spec(chk, n_cases, pres_list, mode="api", procs=12, prefixes=("C01",
 def replay_trace_case(chk, rp):
     cid, case, err = observe_case((rp["case"]["id"], rp["case"]["rec"], rp["pres"], rp.get("mode", "api")))
     if err:
-        if chk.prop == "C01":
+        if chk.prop == "C01" or (chk.prop == "C04" and err.startswith("NOFLAGS")):
             chk.violation("replayed: " + err, rp)
         return
     fails = validate_cases(chk, [case], "replay")
